@@ -156,6 +156,7 @@ class Sim:
             self.close()
             raise
         self.initial_digest = state_digest(self.world[0])
+        self.titl0 = [self.world[0].titl]
         self.repeat = [{}]
         self.last_mut = [None]
         self.last_raise = [None]
@@ -261,7 +262,9 @@ class Sim:
         if inject:
             INJECTOR.arm(inject["target"], inject["nth"], inject["exc"])
         # the reference is built from the state *before* the call
-        pre = (_clone(h.unit_cell), _clone(h.space_group), _clone(h.asymmetric_unit), h.titl)
+        # (the name is the one the handle had when it entered the world: no
+        # operation of the API renames a crystal)
+        pre = (_clone(h.unit_cell), _clone(h.space_group), _clone(h.asymmetric_unit), self.titl0[hi])
         try:
             a = outcome(fn, h, self.A, {"dir": "/simfs/h%d" % hi})
         finally:
@@ -373,6 +376,7 @@ class Sim:
                         "what": "loading the same source again gave a different crystal",
                         "after": self._after(hi)})
                 self.world.append(new)
+                self.titl0.append(new.titl)
                 self.repeat.append({})
                 self.last_mut.append(None)
                 self.last_raise.append(None)
@@ -392,6 +396,7 @@ class Sim:
             raise Violation("STALE_ANSWER", i, op, hi, {"what": "fork differs from its source",
                                                         "after": self._after(hi)})  # fmt: skip
         self.world.append(new)
+        self.titl0.append(self.titl0[hi])
         self.repeat.append(dict(self.repeat[hi]))
         self.last_mut.append(self.last_mut[hi])
         self.last_raise.append(self.last_raise[hi])
@@ -429,6 +434,7 @@ class Sim:
         if state_digest(h) != S:
             raise Violation("QUERY_MUTATED_STATE", i, op, hi, {"what": "derivation changed its source"})
         self.world.append(new)
+        self.titl0.append(new.titl)
         self.repeat.append({})
         self.last_mut.append(None)
         self.last_raise.append(None)
@@ -546,7 +552,9 @@ def _attribute_child(schedule, vj):
         return []
     h = sim.world[v.handle % len(sim.world)]
     names = carriers_present(h)
-    b = outcome(fn, fresh(h), sim.A, {"dir": "/simfs/ref"})
+    hi = v.handle % len(sim.world)
+    ref = Crystal(_clone(h.unit_cell), _clone(h.space_group), _clone(h.asymmetric_unit), titl=sim.titl0[hi])
+    b = outcome(fn, ref, sim.A, {"dir": "/simfs/ref"})
     for size in range(1, len(names) + 1):
         for subset in itertools.combinations(names, size):
             trial = copy.deepcopy(h)
